@@ -209,12 +209,20 @@ def run(ctx):
         n = sum(len(F.enc_frame(*f)) for f in frames) + len(tail)
         cuts = F.splits_k(rng, n, rng.choice([0, 1, 2, 4, n]))
         eval_case(ctx, frames, tail, cuts, gen_reqs(rng, frames), False, cases, meta)
+    # the encoder used in the theorems (Stream.enc_frame) against struct.pack, on frames of every version
+    for _ in range(40 if quick else 400):
+        f = F.gen_frame(rng, versions=(1, 2, 3, 4, 5, 6, 65, 66), maxbody=12)
+        d = rng.choice([0x80, 0])
+        cases.append('zlist_eqb (enc_frame %d %s %s) %s' % (d, F.hdr_lit((f[0], f[1], f[2], f[3], len(f[4]))), F.zlist(f[4]),
+                                                          F.zlist(F.enc_frame(*f, dirbit=d))))
+        meta.append(({'enc_frame': [f[0], f[1], f[2], f[3], bytes(f[4]).hex()]}, []))
+        ctx.count('kind', 'enc_frame-vs-struct')
     if ok or os.path.exists(os.path.join(core.COQ, 'Model', 'Stream.vo')):
         try:
-            bad = ctx.coq_filter(['Stream'], '(fun b : bool => b)', cases, shard=150)
+            bad = ctx.coq_filter(['Stream'], '(fun b : bool => b)', cases, shard=60)
             for i in bad[:10]:
                 case, iev = meta[i]
-                ctx.disagreement('model-vs-impl', 'Model/Stream.v differs from Connection at frames=%r cuts=%r' % (case['frames'], case['cuts']),
+                ctx.disagreement('model-vs-impl', 'Model/Stream.v differs from Connection at %s' % json.dumps(case)[:300],
                                  case=case, actual=iev)
         except RuntimeError as e:
             ctx.proof_broken.append(('correspondence:Stream', str(e)[-600:]))
